@@ -88,18 +88,18 @@ Definition chk_shape1 (p : prog) (o : iobs) : N :=
       else 0
   end%N.
 
-(* the one per-program side condition of the soundness corollary: every statement's definitions
-   can be read simultaneously (seq_ok) *)
+(* the per-program side condition of the soundness corollary: every statement's definitions can
+   be read simultaneously (seq_ok) and no subscript selects an EMPTY tuple component (sub_ne) *)
 Definition chk_guard1 (p : prog) : bool :=
   body_guard (p_num p) (arg_env (p_args p)) (p_ret p) (p_body p).
 (* ... and the two facts the theorems derive from an injective numbering, evaluated on the
    numbering TABLE of this run: assigned symbol numbers distinct, no other binding clobbered *)
 Definition chk_hyg1 (p : prog) : bool :=
   body_guard_g true (p_num p) (arg_env (p_args p)) (p_ret p) (p_body p).
-(* the hypotheses on the signature and on the syntax: ty_good argument / return types (no empty
-   tuple, no sized component of fewer than 2 bits), no empty tuple expression *)
+(* the hypothesis on the signature: ty_good argument / return types (no sized component of
+   fewer than 2 bits) *)
 Definition chk_wf1 (p : prog) : bool :=
-  forallb (fun a => ty_good (snd a)) (p_args p) && ty_good (p_ret p) && forallb stmt_ne (p_body p).
+  forallb (fun a => ty_good (snd a)) (p_args p) && ty_good (p_ret p).
 
 (* does the program contain an if-expression whose branches have DIFFERENT translated types
    (the code widens the narrower branch; harness/shadow.py keeps CPython's dynamic width)? *)
